@@ -275,6 +275,16 @@ func (r *Runner) Run() int {
 				status, detail = r.replay(h, res.Spec, v, path)
 				replayed++
 			}
+			if status == "reproduced-other" {
+				status = "reproduced"
+				other := res.Spec.Name + "|" + strings.TrimPrefix(detail, "outcome=")
+				for _, k := range known {
+					if k.Property == c.ID && k.Status == "known" && k.Signature == other {
+						status = "not-reproduced" // what the native run hit is the recorded finding, not this counterexample
+					}
+				}
+				detail = "native run on this input fails " + detail
+			}
 			isKnown := false
 			for _, k := range known {
 				if k.Property == c.ID && k.Status == "known" && k.Signature == sig {
@@ -540,6 +550,13 @@ func (r *Runner) replay(h *Harness, sp *sym.HarnessSpec, v *sym.Violation, path 
 	for _, o := range outcomes {
 		if o == "outcome=assert:"+want {
 			return "reproduced", o
+		}
+	}
+	// the same input natively violates another assertion of this harness (e.g. one evaluated
+	// earlier under the native goroutine order): still a demonstrated violation of the property
+	for _, o := range outcomes {
+		if strings.HasPrefix(o, "outcome=assert:") || strings.HasPrefix(o, "outcome=panic") {
+			return "reproduced-other", o
 		}
 	}
 	return "not-reproduced", strings.Join(outcomes, "; ") + tail(out, 300)
